@@ -196,6 +196,9 @@ func bubble(t *testing.T, body func(r *Run)) (evs []Ev, leak bool, msg string) {
 		defer func() {
 			if p := recover(); p != nil {
 				leak, msg = true, fmt.Sprint(p)
+				if r == nil { // the bubble never started (e.g. synctest refuses the GODEBUG setting): not a result
+					panic(fmt.Sprintf("bubble did not start: %v", p))
+				}
 			}
 		}()
 		synctest.Test(t, func(t *testing.T) {
